@@ -48,7 +48,11 @@ SPEC = {
     'random interleavings with n<=9, buffer_size<=4, close() at random points; line-granular context-bounded '
     'preemption (every line of prefetch_iterator.py is a preemption point; <=1 preemption for n<=2 x buffer_size<=2 x '
     'ending, <=2 for n=0, random many); real-thread soak. '
-    'prefetch_to_device: all n<=6 x size<=4 x ending x device count<=2. pad_shard_unpad: all b in [1,40] x d in '
+    'prefetch_to_device: all n<=6 x size<=4 x ending x device count<=2; item alphabet None / {} / () / [] / 0-size / '
+    'all-zero / all-False arrays / nested empties / repeated items at every position for n<=6 x size<=4, '
+    'list(prefetch_to_device(src)) compared with list(src) by tree structure and values; the same kind of items '
+    '(None, 0, 0.0, False, empty str/tuple/dict/list/array, repeated) for PrefetchIterator in a third of the random '
+    'interleavings and of the real-thread runs. pad_shard_unpad: all b in [1,40] x d in '
     '{1,2,3,4,8} x min_device_batch in {None,0,1,2,3,5,7,12} with a pytree of inputs, static arg and static kwarg. '
     'scan_in_dim: ranks<=4, every axis tuple in every order and with every sign pattern (non-negative, negative, '
     'mixed entries) for ranks 2-3 (sampled for rank 4), _invert_perm on all permutations of length<=5 plus all sign '
@@ -362,8 +366,8 @@ class Item:
 
 
 class CoopSource:
-  def __init__(self, coop, n, ending):
-    self.coop, self.items, self.ending = coop, [Item(i + 1) for i in range(n)], ending
+  def __init__(self, coop, n, ending, values=None):
+    self.coop, self.items, self.ending = coop, (list(values) if values is not None else [Item(i + 1) for i in range(n)]), ending
     self.i = 0
     self.raised = False
     self.pulls = 0
@@ -387,7 +391,33 @@ class CoopSource:
     raise make_boom(self.ending['raises'])
 
 
-def _obs_of(call):
+SPECIAL_ITEMS = [None, 0, 0.0, False, '', (), {}, [], np.zeros((0,)), np.zeros((2,)), b'', 'dup', 'dup']
+
+
+def same_value(a, b):
+  if type(a) is not type(b):
+    return False
+  if isinstance(a, np.ndarray):
+    return a.shape == b.shape and a.dtype == b.dtype and bool(np.array_equal(a, b))
+  return a is b or a == b
+
+
+def make_values(rng, n):
+  """a source whose items include None, falsy values, empty containers, 0-size arrays and repeated (equal / identical)
+  items - none of which may be taken for end-of-stream, merged or dropped; position k holds Item(k+1) otherwise"""
+  vals = []
+  for k in range(n):
+    u = rng.random()
+    if u < 0.55:
+      vals.append(rng.choice(SPECIAL_ITEMS))
+    elif u < 0.7 and vals:
+      vals.append(vals[-1] if not isinstance(vals[-1], Item) else None)
+    else:
+      vals.append(Item(k + 1))
+  return vals
+
+
+def _obs_of(call, values=None, seen=None):
   try:
     v = call()
   except StopIteration:
@@ -396,6 +426,12 @@ def _obs_of(call):
     return {'exc': e.code}
   except Exception as e:  # noqa: BLE001 - an observation
     return {'err': type(e).__name__}
+  if values is not None:  # items identified by position in the source's own sequence
+    k = seen[0]
+    seen[0] += 1
+    if k < len(values) and same_value(v, values[k]):
+      return {'item': k + 1}
+    return {'alien': repr(v)[:40], 'position': k, 'source_has': repr(values[k])[:40] if k < len(values) else None}
   if isinstance(v, Item):
     return {'item': v.ident}
   return {'alien': repr(v)[:40]}
@@ -404,10 +440,11 @@ def _obs_of(call):
 class PiRun:
   """One PrefetchIterator under the cooperative scheduler; the harness drives it label by label."""
 
-  def __init__(self, n, ending, bs):
+  def __init__(self, n, ending, bs, values=None):
     self.coop = Coop()
     self.n, self.ending, self.bs = n, ending, bs
-    self.src = CoopSource(self.coop, n, ending)
+    self.values, self.seen = values, [0]
+    self.src = CoopSource(self.coop, n, ending, values)
     self.out = []
     self.it = None
     self.ctor_err = None
@@ -428,7 +465,7 @@ class PiRun:
       cmd = self.coop.park('ready', 'cmd')
       if cmd == 'next':
         it = self.it
-        self.out.append(_obs_of(lambda: next(it)))
+        self.out.append(_obs_of(lambda: next(it), self.values, self.seen))
       else:
         return
 
@@ -678,9 +715,12 @@ def check_pi_exhaustive(ctx, drv, scope, limit, probe_rng):
 # ------------------------------------------------------------------------------------------------
 
 
-def random_walk(ctx, rng, n, ending, bs, allow_close, max_steps=400):
+def random_walk(ctx, rng, n, ending, bs, allow_close, max_steps=400, values=None):
   case = {'kind': 'pi-walk', 'n': n, 'ending': ending, 'bs': bs, 'allow_close': allow_close}
-  run = PiRun(n, ending, bs)
+  if values is not None:
+    case['values'] = [repr(v)[:30] for v in values]
+    ctx.count('pi_item_alphabet', 'special items (None, falsy, empty, repeated)')
+  run = PiRun(n, ending, bs, values)
   taken = []
   deadlock = False
   crashes = []
@@ -900,7 +940,9 @@ def real_soak(ctx, rng, runs):
     bs = rng.choice([1, 1, 2, 3, 4])
     ending = 'stop' if rng.random() < 0.4 else {'raises': rng.randrange(1, 100)}
     slow_src, slow_cons = rng.random() < 0.5, rng.random() < 0.5
-    items = [Item(i + 1) for i in range(n)]
+    values = make_values(rng, n) if rng.random() < 0.35 else None
+    items = values if values is not None else [Item(i + 1) for i in range(n)]
+    seen = [0]
 
     def gen():
       for v in items:
@@ -918,7 +960,7 @@ def real_soak(ctx, rng, runs):
       while terms < 2 and len(out) < n + 5:
         if slow_cons:
           time.sleep(0)
-        o = _obs_of(lambda: next(it))
+        o = _obs_of(lambda: next(it), values, seen)
         out.append(o)
         if not (isinstance(o, dict) and 'item' in o):
           terms += 1
@@ -929,6 +971,9 @@ def real_soak(ctx, rng, runs):
     if t.is_alive():  # be patient on a loaded machine before calling it a deadlock
       t.join(timeout=55.0)
     case = {'kind': 'pi-real', 'n': n, 'ending': ending, 'bs': bs}
+    if values is not None:
+      case['values'] = [repr(v)[:30] for v in values]
+      ctx.count('pi_item_alphabet', 'special items, real threads')
     ctx.case(case, nontrivial=n > 0 or ending != 'stop')
     ctx.count('pi_real_threads', f'bs={bs}')
     bad = 'consumer still blocked after 60 s (deadlock)' if t.is_alive() else oracle_prefix(out, n, ending)
@@ -1102,6 +1147,100 @@ def check_prefetch_to_device(ctx, drv, scope):
       ctx.count('ptd_items_dropped_before_exception', dropped)
       if 'prefetch_to_device-exception-drops-buffered' in findings and dropped > 0:
         ctx.violation('prefetch_to_device-exception-drops-buffered', f'prefetch_to_device(n={n}, size={size}) raises the source exception before {dropped} already fetched item(s)', dict(case, observed=out))
+
+
+def ptd_special_items(d):
+  """pytrees that are easy to mistake for "nothing": the empty pytrees, 0-size and all-falsy arrays"""
+  return [
+    ('None', lambda: None),
+    ('{}', lambda: {}),
+    ('()', lambda: ()),
+    ('[]', lambda: []),
+    ('size0', lambda: np.zeros((d, 0), np.float32)),
+    ('zeros', lambda: np.zeros((d,), np.int64)),
+    ('false', lambda: np.zeros((d,), np.bool_)),
+    ('zero.0', lambda: {'a': np.zeros((d, 1), np.float32), 'b': None}),
+    ('nested-empty', lambda: {'a': {}, 'b': (), 'c': [None]}),
+  ]
+
+
+def tree_same(a, b):
+  if jax.tree_util.tree_structure(a) != jax.tree_util.tree_structure(b):
+    return False
+  for x, y in zip(jax.tree_util.tree_leaves(a), jax.tree_util.tree_leaves(b)):
+    x, y = np.asarray(x), np.asarray(y)
+    if x.shape != y.shape or x.dtype != y.dtype or not np.array_equal(x, y):
+      return False
+  return True
+
+
+def check_prefetch_to_device_items(ctx, drv, rng, n_random):
+  """`list(prefetch_to_device(src, size))` has the length, and per position the tree structure and values, of
+  `list(src)` - whatever the items are: None / empty containers / 0-size / all-zero arrays / repeated items, at
+  every position for n <= 6 x size <= 4."""
+  cases = []
+  for d in (1, 2):
+    specials = ptd_special_items(d)
+    normal = lambda i, d=d: {'x': np.full((d, 2), i + 1, np.int64)}
+    for n in range(1, 7):
+      for size in range(1, 5):
+        for p in range(n):
+          for si, (name, mk) in enumerate(specials):
+            if d == 2 and (n + size + p + si) % 4:  # the full product for one device, a quarter of it for two
+              continue
+            src = [mk() if i == p else normal(i) for i in range(n)]
+            cases.append((d, size, src, [(-(si + 1) if i == p else i + 1) for i in range(n)], f'{name}@{p}'))
+    for _ in range(n_random):
+      n, size = rng.randrange(0, 7), rng.randrange(1, 5)
+      src, codes = [], []
+      for i in range(n):
+        u = rng.random()
+        if u < 0.5:
+          si = rng.randrange(len(specials))
+          src.append(specials[si][1]())
+          codes.append(-(si + 1))
+        elif u < 0.7 and src:
+          src.append(src[-1])  # the very same object again
+          codes.append(codes[-1])
+        else:
+          src.append(normal(i))
+          codes.append(i + 1)
+      cases.append((d, size, src, codes, 'random'))
+  reqs, recs = [], []
+  for d, size, src, codes, what in cases:
+    set_devices(d)
+    r = call(lambda: list(ju.prefetch_to_device(iter(src), size)))
+    recs.append(r)
+    reqs.append(('ptd_run', [size, 'stop', codes, len(codes) + 1]))
+  set_devices(1)
+  outs = drv.run(reqs)
+  for (d, size, src, codes, what), r, m in zip(cases, recs, outs):
+    case = {'kind': 'ptd-items', 'd': d, 'size': size, 'codes': codes, 'what': what}
+    ctx.case(case, nontrivial=len(src) > 0)
+    ctx.count('ptd_item_alphabet', what.split('@')[0])
+    if r[0] != 'ok':
+      ctx.violation('prefetch_to_device-raises-special-item', f'prefetch_to_device raised {r[1]} on a source with items {what} ({case})', case)
+      continue
+    got = r[1]
+    bad = None
+    if len(got) != len(src):
+      bad = f'{len(got)} items delivered, the source has {len(src)}'
+    else:
+      for k, (a, b) in enumerate(zip(got, src)):
+        if not tree_same(a, b):
+          bad = f'item #{k} is {repr(a)[:60]}, the source has {repr(b)[:60]}'
+          break
+    if bad is not None:
+      ctx.violation(
+        'prefetch_to_device-wrong-delivery-special-item',
+        f'list(prefetch_to_device(src, size={size})) differs from list(src) for a source with item codes {codes} ({what}; negative = None/empty/0-size/all-zero item): {bad}',
+        case,
+      )
+      continue
+    want = ('ok', [{'item': c} for c in codes] + ['stop'])
+    if m != want:
+      ctx.disagreements_checked += 1
+      ctx.violation('prefetch_to_device-model-mismatch', f'model {m} vs {want} on {case}', case, concrete=False)
 
 
 # ================================================================================================
@@ -1624,7 +1763,7 @@ def run(ctx):
   for i in range(1500 if thorough else 260):
     n = rng.choice([0, 0, 1, 1, 2, 3, 4, 5, 7, 9])
     ending = 'stop' if rng.random() < 0.35 else {'raises': rng.randrange(1, 50)}
-    random_walk(ctx, rng, n, ending, rng.choice([1, 1, 2, 2, 3, 4]), allow_close=(i % 4 == 0))
+    random_walk(ctx, rng, n, ending, rng.choice([1, 1, 2, 2, 3, 4]), allow_close=(i % 4 == 0), values=make_values(rng, n) if i % 3 == 1 else None)
   # excluded point buffer_size=0 (not a finding): after the first item nothing but close() can move
   t = drv.run([('pi_trace', ['fixed', 0, 'stop', [1, 2], ['ctor', 'ctor', 'ctor', 'fetch', 'put', 'next']])])[0]
   replay_schedule(ctx, 2, 'stop', 0, ['ctor', 'ctor', 'ctor', 'fetch', 'put', 'next'], t, None, origin='excluded-point')
@@ -1636,6 +1775,7 @@ def run(ctx):
   scope = [(n, size, e, d) for n in range(0, 7) for size in range(0, 5) for e in ('stop', {'raises': 11 + n}) for d in (1, 2)]
   check_prefetch_to_device(ctx, drv, scope)
   ctx.count('excluded_points_run', 'size=0', 28)
+  check_prefetch_to_device_items(ctx, drv, rng, 600 if thorough else 100)
 
   # ---- pad_shard_unpad ---------------------------------------------------------------------------
   scope = [(b, d, mdb) for b in range(1, 41) for d in (1, 2, 3, 4, 8) for mdb in (None, 0, 1, 2, 3, 5, 7, 12)]
@@ -1683,6 +1823,8 @@ def _run_case(ctx, drv, obj):
     fine_case(ctx, case['n'], case['ending'], case['bs'], preempt=set(case.get('preempt', [])))
   elif kind == 'pi-real':
     real_soak(ctx, ctx.rng, 60)
+  elif kind == 'ptd-items':
+    check_prefetch_to_device_items(ctx, drv, ctx.rng, 50)
   elif kind == 'ptd':
     check_prefetch_to_device(ctx, drv, [(case['n'], case['size'], case['ending'], case.get('d', 1))])
   elif kind in ('psu',):
